@@ -2,6 +2,7 @@ package basestreamseeder
 
 import (
 	"sync"
+	"sync/atomic"
 	"time"
 
 	"github.com/Fantom-foundation/lachesis-base/gossip/basestream"
@@ -263,3 +264,95 @@ func VerifH_C17_unreg6() { verifC17(6, 2, 3, 1) }
 // two sender threads, three requests with symbolic session IDs (a resumed session may be interleaved with a new one)
 func VerifH_C17_threads2()   { verifC17t(3, -1, 0, 1, 2) }
 func VerifH_C17_unreg6full() { verifC17(6, 2, 3, 2) }
+
+// VerifH_C17_pending: the pending-response memory bound.  One request for 2-3 chunks (one item per chunk, symbolic
+// item sizes) with a small symbolic memory limit; the sender worker is stalled and runs only when the reader
+// sleeps waiting for room (time.Sleep yields to the environment).  Whenever the harness gets control, the memory
+// of the queued responses is at most the limit plus one response.
+func VerifH_C17_pending() {
+	sizes := make([]uint64, vItems)
+	for i := range sizes {
+		sizes[i] = uint64(sym.U8(vnItem[i]))
+	}
+	limit := uint64(sym.U16("pendingLimit"))
+	sym.Assume(limit >= 1 && limit <= 2000)
+	var sentMem []uint64
+	cfg := Config{SenderThreads: 1, MaxSenderTasks: 64, MaxPendingResponsesSize: int64(limit),
+		MaxResponsePayloadNum: 3, MaxResponsePayloadSize: 1 << 30, MaxResponseChunks: 4}
+	s := New(cfg, Callbacks{
+		ForEachItem: func(start basestream.Locator, _ basestream.RequestType, onKey func(basestream.Locator) bool, onAppended func(basestream.Payload) bool) basestream.Payload {
+			var p vPayload
+			for k := int(start.(vLoc)); k < vItems+2; k++ {
+				if !onKey(vLoc(k)) {
+					break
+				}
+				p.keys = append(p.keys, k)
+				if k < vItems {
+					p.size += sizes[k]
+				}
+				if !onAppended(p) {
+					break
+				}
+			}
+			return p
+		},
+	})
+	var mu sync.Mutex
+	release := make(chan struct{})
+	peer := Peer{ID: "p", SendChunk: func(r basestream.Response) error {
+		if !sym.Symbolic() {
+			<-release // natively the peer is stalled until the harness has looked at the pending memory
+		}
+		mu.Lock()
+		sentMem = append(sentMem, uint64(r.Payload.TotalMemSize()))
+		mu.Unlock()
+		return nil
+	}, Misbehaviour: func(error) {}}
+	var peak int64
+	look := func() {
+		if p := atomic.LoadInt64(&s.pendingResponsesSize); p > peak {
+			peak = p
+		}
+	}
+	chunks := uint32(2 + sym.Choice("chunks", 2))
+	if sym.Symbolic() {
+		inEnv := false
+		sym.OnYield(func(tag string) bool {
+			if tag != "sleep" || inEnv {
+				return false // a worker with nothing to do just parks
+			}
+			inEnv = true
+			look()
+			s.senders[0].Start(1) // the stalled sender gets to send what is queued
+			sym.RunGo(sym.NumGo() - 1)
+			inEnv = false
+			return true
+		})
+	} else {
+		s.Start()
+	}
+	err, perr := s.NotifyRequestReceived(peer, basestream.Request{
+		Session: basestream.Session{ID: 1, Start: vLoc(0), Stop: vLoc(vItems)}, MaxChunks: chunks, MaxPayloadNum: 1, MaxPayloadSize: 1 << 20})
+	sym.Assert(err == nil && perr == nil, "request accepted")
+	if sym.Symbolic() {
+		sym.RunUntilBlocked(func() { s.readerLoop() })
+		look()
+		s.senders[0].Start(1)
+		sym.RunGo(sym.NumGo() - 1)
+	} else {
+		time.Sleep(150 * time.Millisecond) // the reader has queued what it is willing to queue
+		look()
+		close(release)
+		time.Sleep(150 * time.Millisecond)
+		s.Stop()
+	}
+	var maxResp uint64
+	for _, m := range sentMem {
+		if m > maxResp {
+			maxResp = m
+		}
+	}
+	sym.Assert(uint32(len(sentMem)) == chunks, "every requested chunk is sent")
+	sym.Assert(uint64(peak) <= limit+maxResp, "pending response memory never exceeds its limit by more than one response")
+	sym.Reach("pending")
+}
